@@ -34,7 +34,7 @@ struct Unsupported { std::string what; };
 struct Lower {
   ASTContext& C;
   std::unique_ptr<MangleContext> MC;
-  std::map<const CXXRecordDecl*, std::string> recName;
+  std::map<const CXXRecordDecl*, std::string> recName; std::map<std::string, int> lambdaOrd;
   std::vector<const CXXRecordDecl*> recOrder;      // emission order (dependencies first)
   std::set<const CXXRecordDecl*> recDone, recBusy;
   std::map<const FunctionDecl*, std::string> fnName;
@@ -67,8 +67,16 @@ struct Lower {
     auto it = recName.find(RD);
     if (it != recName.end()) return it->second;
     std::string mn; llvm::raw_string_ostream os(mn);
-    MC->mangleTypeName(QualType(RD->getTypeForDecl(), 0), os);
-    std::string n = "S" + sanitize(os.str());
+    std::string n;
+    if (RD->isLambda()) {
+      // closure types get clang-internal numbers that depend on mangling order; name them after their context instead
+      if (auto* CV = dyn_cast_or_null<VarDecl>(RD->getLambdaContextDecl())) n = "Slambda_" + mangle(CV);
+      else if (!isa<FunctionDecl>(RD->getDeclContext())) {
+        for (auto* D : RD->getDeclContext()->decls()) if (auto* V = dyn_cast<VarDecl>(D)) if (auto* VR = V->getType().getNonReferenceType()->getAsCXXRecordDecl()) if (VR->getDefinition() == RD) { n = "Slambda_" + mangle(V); break; }
+      }
+      else if (auto* CF = dyn_cast<FunctionDecl>(RD->getDeclContext())) { std::string base = "Slambda_" + mangle(CF); int k = lambdaOrd[base]++; n = base + "_" + std::to_string(k); }
+    }
+    if (n.empty()) { MC->mangleTypeName(QualType(RD->getTypeForDecl(), 0), os); n = "S" + sanitize(os.str()); }
     recName[RD] = n;
     return n;
   }
@@ -84,7 +92,9 @@ struct Lower {
       body = "  char __opaque[" + std::to_string(std::max<long>(1, L.getSize().getQuantity())) + "];\n";
     } else {
       int bi = 0;
+      if (isPolyRoot(RD)) body += "  int __cls; /* dynamic class of the complete object: (class id << 5) | index of this root subobject */\n";
       for (auto& B : RD->bases()) {
+        if (B.isVirtual()) throw Unsupported{"virtual base class"};
         auto* BD = B.getType()->getAsCXXRecordDecl();
         needRecord(BD);
         body += "  struct " + rec(BD) + " __b" + std::to_string(bi++) + ";\n";
@@ -186,6 +196,12 @@ struct Lower {
     if (globalsSeen.count(VD)) return VD->getType()->isReferenceType() ? "(*" + g + ")" : g;
     globalsSeen.insert(VD);
     QualType T = VD->getType();
+    if (auto* LR = T.getNonReferenceType()->getAsCXXRecordDecl()) if (LR->isLambda()) {   // a named lambda object: its call operators are reachable through std algorithms
+      if (auto* CO = LR->getLambdaCallOperator()) {
+        if (auto* FT = CO->getDescribedFunctionTemplate()) { for (auto* Sp : FT->specializations()) if (Sp->getDefinition() && Sp->getDefinition()->hasBody()) fn(Sp); }
+        else fn(CO);
+      }
+    }
     globalDecls += "extern " + declare(T, g) + "; /* " + VD->getQualifiedNameAsString() + " */\n";
     bool isConst = T.isConstQualified() || T->isReferenceType() || VD->isConstexpr();
     std::string init; bool haveInit = false;
@@ -205,7 +221,7 @@ struct Lower {
   }
   std::string fieldName(const FieldDecl* F) { return "f_" + (F->getName().empty() ? "cap" + std::to_string(F->getFieldIndex()) : F->getNameAsString()); }
   // C constant initialiser for a value computed by clang's constant evaluator
-  std::string apv(const APValue& V, QualType T) {
+  std::string apv(const APValue& V, QualType T, const CXXRecordDecl* mostDerived = nullptr, const std::string& pathInMD = "") {
     T = T.getCanonicalType();
     switch (V.getKind()) {
       case APValue::Int: return llvm::toString(V.getInt(), 10);
@@ -214,7 +230,14 @@ struct Lower {
         RD = RD->getDefinition();
         if (isOpaque(RD)) throw Unsupported{"apvalue of opaque std record " + RD->getQualifiedNameAsString()};
         std::string r = "{"; bool first = true; unsigned bi = 0;
-        for (auto& B : RD->bases()) { r += (first ? "" : ", ") + apv(V.getStructBase(bi++), B.getType()); first = false; }
+        if (!mostDerived) mostDerived = RD;
+        if (isPolyRoot(RD)) {
+          std::vector<std::pair<std::string, const CXXRecordDecl*>> roots; polyRootPaths(mostDerived, "", roots); int k = -1;
+          for (size_t i = 0; i < roots.size(); ++i) if (roots[i].first == pathInMD) k = (int)i;
+          if (k < 0) throw Unsupported{"apvalue: polymorphic root not found in most derived class"};
+          r += std::to_string((clsId(mostDerived) << 5) | k); first = false;
+        }
+        for (auto& B : RD->bases()) { r += (first ? "" : ", ") + apv(V.getStructBase(bi), B.getType(), mostDerived, pathInMD + ".__b" + std::to_string(bi)); bi++; first = false; }
         for (auto* F : RD->fields()) { r += (first ? "" : ", ") + apv(V.getStructField(F->getFieldIndex()), F->getType()); first = false; }
         if (first) r += "0";
         return r + "}";
@@ -396,6 +419,7 @@ struct Lower {
     if (auto* X = dyn_cast<InitListExpr>(E)) {
       if (!X->getType()->isRecordType()) { if (X->getNumInits()==1) return ex(X->getInit(0)); if (X->getNumInits()==0) return "0"; }
       else if (X->isGLValue() || (X->getNumInits()==1 && C.hasSameUnqualifiedType(X->getInit(0)->getType(), X->getType()))) return ex(X->getInit(0));
+      else if (X->getType()->getAsCXXRecordDecl() && isOpaque(X->getType()->getAsCXXRecordDecl()->getDefinition())) return "((" + declareAbstract(X->getType()) + "){0})";
       else { std::string r = "((" + declareAbstract(X->getType()) + "){"; if (X->getNumInits()==0) r += "0";
         auto* RD = X->getType()->getAsCXXRecordDecl(); std::vector<const FieldDecl*> fs; if (RD && RD->getNumBases()==0) for (auto* F : RD->fields()) fs.push_back(F);
         for (unsigned i=0;i<X->getNumInits();++i) { bool ref = i < fs.size() && fs[i]->getType()->isReferenceType(); r += (i?", ":"") + (ref ? "&" + ex(X->getInit(i)) : ex(X->getInit(i))); }
@@ -404,7 +428,7 @@ struct Lower {
     if (auto* X = dyn_cast<CXXConstructExpr>(E)) {
       auto* CD = X->getConstructor();
       if (CD->isTrivial() || CD->getParent()->isEmpty()) {
-        if (X->getNumArgs() == 0) return "((" + declareAbstract(X->getType()) + "){0})";
+        if (X->getNumArgs() == 0 || (CD->getParent()->isEmpty() && !CD->isCopyOrMoveConstructor())) return "((" + declareAbstract(X->getType()) + "){0})";
         return ex(X->getArg(0));
       }
       std::string T = declareAbstract(X->getType());
@@ -423,6 +447,8 @@ struct Lower {
     if (auto* X = dyn_cast<LambdaExpr>(E)) {
       auto* RD = X->getLambdaClass(); needRecord(RD);
       if (!RD->isGenericLambda()) fn(X->getCallOperator());
+      else if (auto* FT = X->getCallOperator()->getDescribedFunctionTemplate())   // generic lambda: every instantiated call operator (they are called from std algorithms, which are stubs)
+        for (auto* Sp : FT->specializations()) if (Sp->getDefinition() && Sp->getDefinition()->hasBody()) fn(Sp);
       std::string r = "((" + declareAbstract(QualType(RD->getTypeForDecl(),0)) + "){";
       bool first = true; auto FI = RD->field_begin();
       for (auto CI = X->capture_init_begin(); CI != X->capture_init_end(); ++CI, ++FI) {
@@ -487,7 +513,10 @@ struct Lower {
   std::string ctorCall(const CXXConstructorDecl* CD, const std::string& ptr, const CXXConstructExpr* CE) {
     if (CD->isTrivial() && CE->getNumArgs() == 0) return "(void)0";
     if (CD->isCopyOrMoveConstructor() && CD->isTrivial()) return "(*(" + ptr + ") = " + ex(CE->getArg(0)) + ")";
-    if (isStd(CD)) return "(void)0 /* std ctor dropped: " + CD->getQualifiedNameAsString() + " */";
+    if (stdOpaqueFn(CD)) {
+      if (!isOpaque(CD->getParent())) throw Unsupported{"constructor of a transparent std record is not lowered: " + CD->getQualifiedNameAsString()};
+      return "(void)0 /* std ctor of opaque record dropped: " + CD->getQualifiedNameAsString() + " */";
+    }
     std::string s = fn(CD) + "(" + ptr;
     for (unsigned i = 0; i < CE->getNumArgs(); ++i) s += ", " + arg(CE->getArg(i), CD->getParamDecl(i)->getType());
     return s + ")";
@@ -568,6 +597,89 @@ struct Lower {
   // a virtual call on `this` inside a constructor body is not devirtualised; a call on `this` to a method
   // whose final overrider in the *current* class is marked final (or the class is final) is, by clang.  Nothing more here.
   const CXXMethodDecl* thisClassFinal(const CXXMethodDecl*, const Expr*) { return nullptr; }
+  // ---- dynamic classes: every polymorphic root subobject carries __cls; constructors and constant objects set it
+  bool isPolyRoot(const CXXRecordDecl* RD) {
+    RD = RD->getDefinition(); if (!RD || !RD->isPolymorphic() || isOpaque(RD)) return false;
+    for (auto& B : RD->bases()) if (auto* BD = B.getType()->getAsCXXRecordDecl()) if (BD->getDefinition() && BD->getDefinition()->isPolymorphic()) return false;
+    return true;
+  }
+  // member paths (".__b0.__b1") from D to each polymorphic-root subobject, DFS order
+  void polyRootPaths(const CXXRecordDecl* D, const std::string& pre, std::vector<std::pair<std::string, const CXXRecordDecl*>>& out) {
+    D = D->getDefinition(); if (!D || !D->isPolymorphic()) return;
+    if (isPolyRoot(D)) { out.push_back({pre, D}); return; }
+    int bi = 0; for (auto& B : D->bases()) { if (auto* BD = B.getType()->getAsCXXRecordDecl()) polyRootPaths(BD, pre + ".__b" + std::to_string(bi), out); bi++; }
+  }
+  // member paths from D to every subobject of class B
+  void subobjectPaths(const CXXRecordDecl* D, const CXXRecordDecl* B, const std::string& pre, std::vector<std::string>& out) {
+    D = D->getDefinition(); if (!D) return;
+    if (D == B->getDefinition()) { out.push_back(pre); return; }
+    int bi = 0; for (auto& X : D->bases()) { if (auto* BD = X.getType()->getAsCXXRecordDecl()) subobjectPaths(BD, B, pre + ".__b" + std::to_string(bi), out); bi++; }
+  }
+  std::vector<const CXXRecordDecl*> constructed; std::map<const CXXRecordDecl*, int> clsIds;
+  int clsId(const CXXRecordDecl* D) {
+    D = D->getDefinition();
+    auto it = clsIds.find(D); if (it != clsIds.end()) return it->second;
+    int id = (int)constructed.size() + 1; constructed.push_back(D); clsIds[D] = id; needRecord(D);
+    return id;
+  }
+  std::string setClsStmts(const CXXRecordDecl* D, const std::string& objLv, const std::string& I) {
+    if (!D->getDefinition()->isPolymorphic()) return "";
+    std::vector<std::pair<std::string, const CXXRecordDecl*>> roots; polyRootPaths(D, "", roots);
+    if (roots.size() >= 32) throw Unsupported{"more than 31 polymorphic root subobjects"};
+    std::string r; int id = clsId(D); int k = 0;
+    for (auto& rp : roots) r += I + "(" + objLv + ")" + rp.first + ".__cls = " + std::to_string((id << 5) | k++) + "; /* " + D->getQualifiedNameAsString() + " */\n";
+    return r;
+  }
+  struct VStub { const CXXMethodDecl* MD; std::string name, proto, ret; std::vector<std::string> argNames; size_t doneFor = 0; };
+  std::vector<VStub> vstubs; std::string dispatchers; std::vector<std::string> dispatchJson;
+  std::string adjustUp(const std::string& ptr, const CXXRecordDecl* from, const CXXRecordDecl* to) {
+    if (from->getDefinition() == to->getDefinition()) return ptr;
+    std::vector<std::string> ps; subobjectPaths(from, to, "", ps);
+    if (ps.empty()) throw Unsupported{"dispatch: no path " + from->getQualifiedNameAsString() + " -> " + to->getQualifiedNameAsString()};
+    return "(&(*" + ptr + ")" + ps.front() + ")";
+  }
+  // (re)generate all dispatchers for the classes constructed so far; returns true when new functions were requested
+  void genDispatch() {
+    dispatchers.clear(); dispatchJson.clear();
+    for (size_t si = 0; si < vstubs.size(); ++si) {
+      VStub V = vstubs[si];
+      const CXXRecordDecl* B = V.MD->getParent()->getDefinition();
+      std::vector<std::pair<std::string, const CXXRecordDecl*>> broots; polyRootPaths(B, "", broots);
+      if (broots.empty()) throw Unsupported{"virtual method of a class without polymorphic root"};
+      std::string rb = broots.front().first;
+      std::string args; for (auto& a : V.argNames) args += ", " + a;
+      std::string d = V.ret + " " + V.name + "(" + V.proto + ")\n{\n  switch ((*self)" + rb + ".__cls) {\n";
+      std::string cases;
+      for (size_t ci = 0; ci < constructed.size(); ++ci) {
+        const CXXRecordDecl* D = constructed[ci];
+        if (D != B && !D->isDerivedFrom(B)) continue;
+        std::vector<std::string> bpaths; subobjectPaths(D, B, "", bpaths);
+        std::vector<std::pair<std::string, const CXXRecordDecl*>> droots; polyRootPaths(D, "", droots);
+        const CXXMethodDecl* F = const_cast<CXXMethodDecl*>(V.MD)->getCorrespondingMethodInClass(D, true);
+        if (!F || F->isPure()) continue;
+        if (auto* FDf = dyn_cast_or_null<CXXMethodDecl>(F->getDefinition())) F = FDf;
+        for (auto& pb : bpaths) {
+          std::string full = pb + rb; int k = -1;
+          for (size_t i = 0; i < droots.size(); ++i) if (droots[i].first == full) k = (int)i;
+          if (k < 0) throw Unsupported{"dispatch: root subobject not found"};
+          std::string dt = "struct " + rec(D);
+          std::string dptr = "((" + dt + "*)((char*)&(*self)" + rb + " - __builtin_offsetof(" + dt + ", " + full.substr(1) + ")))";
+          std::string fself = adjustUp(dptr, D, F->getParent());
+          std::string call = fn(F) + "(" + fself + args + ")";
+          QualType RF = F->getReturnType(), RM = V.MD->getReturnType();
+          if ((RF->isReferenceType() || RF->isPointerType()) && RF->getPointeeType()->getAsCXXRecordDecl() && RM->getPointeeType()->getAsCXXRecordDecl()
+              && RF->getPointeeType()->getAsCXXRecordDecl()->getDefinition() != RM->getPointeeType()->getAsCXXRecordDecl()->getDefinition()) {
+            std::string t = "__r" + std::to_string(tmpId++);
+            call = "({ " + declareAbstract(RF) + " " + t + " = " + call + "; " + t + " ? " + adjustUp(t, RF->getPointeeType()->getAsCXXRecordDecl(), RM->getPointeeType()->getAsCXXRecordDecl()) + " : (" + V.ret + ")0; })";
+          }
+          cases += "    case " + std::to_string((clsIds[D] << 5) | k) + ": /* " + D->getQualifiedNameAsString() + " -> " + F->getQualifiedNameAsString() + " */ " + (V.MD->getReturnType()->isVoidType() ? call + "; return;" : "return " + call + ";") + "\n";
+          dispatchJson.push_back("{\"stub\": \"" + V.name + "\", \"class\": \"" + jsonEsc(D->getQualifiedNameAsString()) + "\", \"final_overrider\": \"" + jsonEsc(F->getQualifiedNameAsString()) + "\", \"fn\": \"" + fnName[F->getDefinition() ? F->getDefinition() : F] + "\"}");
+        }
+      }
+      d += cases + "    default: " + (V.MD->getReturnType()->isVoidType() ? "" : "return ") + V.name + "__ext(self" + args + ");" + (V.MD->getReturnType()->isVoidType() ? " return;" : "") + "\n  }\n}\n";
+      dispatchers += "/* dynamic dispatch of " + V.MD->getQualifiedNameAsString() + " over the classes constructed in this unit; other objects go to the harness's model */\n" + V.ret + " " + V.name + "__ext(" + V.proto + ");\n#ifndef IPR_SKIP_" + V.name + "\n" + d + "#endif\n\n";
+    }
+  }
   std::map<std::string, std::string> virtStubs; // name -> json
   std::string virtcall(const CXXMethodDecl* MD, const std::string& self, const CallExpr* X, unsigned first) {
     std::string n = "__virt_" + mangle(MD);
@@ -579,6 +691,7 @@ struct Lower {
     }
     if (!virtStubs.count(n)) {
       std::string ret = declareAbstract(MD->getReturnType());
+      { VStub V; V.MD = MD; V.name = n; V.proto = proto; V.ret = ret; for (unsigned i = first; i < X->getNumArgs(); ++i) V.argNames.push_back("a" + std::to_string(i)); vstubs.push_back(V); }
       protos += "/* virtual call stub: " + MD->getQualifiedNameAsString() + " */ " + ret + " " + n + "(" + proto + ");\n";
       virtStubs[n] = "{\"name\": \"" + n + "\", \"method\": \"" + jsonEsc(MD->getQualifiedNameAsString()) + "\", \"mangled\": \"" + mangle(MD) + "\", \"ret\": \"" + jsonEsc(ret) + "\", \"params\": \"" + jsonEsc(proto) + "\"}";
     }
@@ -619,6 +732,11 @@ struct Lower {
     }
     if (isAlloc && FD->getNameAsString()=="deallocate") return "__ipr_free(" + ex(X->getArg(first)) + ")";
     if (FD->getNameAsString()=="forward" || FD->getNameAsString()=="move") return ex(X->getArg(first));
+    if ((q == "std::begin" || q == "std::end" || q == "std::cbegin" || q == "std::cend") && FD->getNumParams() == 1) {
+      QualType AT = FD->getParamDecl(0)->getType().getNonReferenceType();
+      if (auto* CAT = C.getAsConstantArrayType(AT))
+        return "(&(" + ex(X->getArg(first)) + ")[" + ((q == "std::begin" || q == "std::cbegin") ? std::string("0") : std::to_string(CAT->getSize().getZExtValue())) + "])";
+    }
     if (q.rfind("std::forward_list<",0)==0 && FD->getNameAsString()=="emplace_front") {
       auto* MD = llvm::cast<CXXMethodDecl>(FD);
       auto* Spec = dyn_cast<ClassTemplateSpecializationDecl>(MD->getParent());
@@ -878,8 +996,10 @@ struct Lower {
     b += sig + "\nCONTRACT_" + name + "\n";
     if (auto* CD = dyn_cast<CXXConstructorDecl>(FD)) {
       b += "{\n";
+      bool clsSet = false;
       for (auto* I : CD->inits()) {
         const Expr* Init = I->getInit()->IgnoreImplicit();
+        if (!I->isBaseInitializer() && !clsSet) { b += setClsStmts(CD->getParent(), "*self", "  "); clsSet = true; }
         if (I->isBaseInitializer()) {
           auto* BD = QualType(I->getBaseClass(),0)->getAsCXXRecordDecl()->getDefinition();
           int bi = 0, found = -1; for (auto& B : CD->getParent()->bases()) { if (B.getType()->getAsCXXRecordDecl()->getDefinition()==BD) found = bi; bi++; }
@@ -900,16 +1020,16 @@ struct Lower {
           b += initLv(lv, F->getType(), RawInit, "  ");
         }
       }
+      if (!clsSet) b += setClsStmts(CD->getParent(), "*self", "  ");
       b += st(FD->getBody(), 1) + "}\n";
     } else
     b += st(FD->getBody(), 0);
-    bodies += b + "\n";
+    bodies += "#ifndef IPR_SKIP_" + name + "\n" + b + "#endif\n\n";
     auto PL = C.getSourceManager().getPresumedLoc(FD->getLocation());
     fnJson.push_back("{\"name\": \"" + name + "\", \"qualified\": \"" + jsonEsc(FD->getQualifiedNameAsString()) + "\", \"type\": \"" + jsonEsc(FD->getType().getAsString()) + "\", \"file\": \"" + jsonEsc(PL.isValid() ? PL.getFilename() : "?") + "\", \"line\": " + std::to_string(PL.isValid() ? PL.getLine() : 0) + ", \"loops\": " + std::to_string(loopOrd) + ", \"sig\": \"" + jsonEsc(sig) + "\"}");
   }
   std::vector<std::string> fnJson, noBody;
-  void run(const std::vector<const FunctionDecl*>& roots) {
-    for (auto* R : roots) fn(R);
+  void drain() {
     while (!work.empty()) {
       auto* FD = work.front(); work.pop_front();
       const FunctionDecl* Def = FD->getDefinition();
@@ -917,6 +1037,18 @@ struct Lower {
       if (!Tolerant) emitFunction(Def);
       else { try { emitFunction(Def); } catch (Unsupported& u) { UnsupportedLog[u.what].insert(Def->getQualifiedNameAsString()); } }
     }
+  }
+  void run(const std::vector<const FunctionDecl*>& roots) {
+    for (auto* R : roots) fn(R);
+    drain();
+    // dispatchers may pull in final overriders, whose bodies may construct new classes and make new virtual calls: iterate
+    for (int round = 0; round < 50; ++round) {
+      size_t nf = fnSeen.size(), nc = constructed.size(), nv = vstubs.size();
+      genDispatch(); drain();
+      if (fnSeen.size() == nf && constructed.size() == nc && vstubs.size() == nv) break;
+      if (round == 49) throw Unsupported{"dispatch generation did not reach a fixpoint"};
+    }
+    genDispatch();
     // make sure every named record has a definition
     for (bool again = true; again; ) { again = false;
       std::vector<const CXXRecordDecl*> rs; for (auto& kv : recName) rs.push_back(kv.first);
@@ -961,16 +1093,18 @@ struct Cons : ASTConsumer {
     if (Tolerant) { llvm::errs() << "ROOTS " << F.found.size() << " FUNCTIONS " << L.fnSeen.size() << "\n"; for (auto& kv : UnsupportedLog) { llvm::errs() << "UNSUP\t" << kv.second.size() << "\t" << kv.first << "\t" << *kv.second.begin() << "\n"; } }
     std::string out = "/* generated by cxx2c from the clang AST of /repo; do not edit */\n";
     for (auto& e : L.excIds) out += "#define " + e.first + " " + std::to_string(e.second) + "\n";
+    for (auto* D : L.constructed) out += "#define IPR_CLS_" + L.rec(D).substr(1) + " " + std::to_string(L.clsIds[D]) + " /* " + D->getQualifiedNameAsString() + " */\n";
     for (auto& kv : L.fnName) out += "#ifndef CONTRACT_" + kv.second + "\n#define CONTRACT_" + kv.second + "\n#endif\n";
     for (auto& m : L.loopMacros) out += "#ifndef " + m + "\n#define " + m + "\n#endif\n";
-    out += L.structs + "\n" + L.globalDecls + "\n" + L.protos + "\n#ifndef IPR_NO_GLOBAL_DEFS\n" + L.globalDefs + "#endif\n\n" + L.bodies + "\n" + L.outlined;
+    out += L.structs + "\n" + L.globalDecls + "\n" + L.protos + "\n#ifndef IPR_NO_GLOBAL_DEFS\n" + L.globalDefs + "#endif\n\n" + L.bodies + "\n" + L.dispatchers + "\n" + L.outlined;
     if (OutC.empty()) llvm::outs() << out; else writeFile(OutC, out);
     if (!OutJson.empty()) {
       std::vector<std::string> vs; for (auto& kv : L.virtStubs) vs.push_back(kv.second);
       std::vector<std::string> ex; for (auto& e : L.excIds) ex.push_back("{\"name\": \"" + e.first + "\", \"id\": " + std::to_string(e.second) + "}");
       std::vector<std::string> cs; for (auto& kv : L.calls) { std::string a = "{\"caller\": \"" + kv.first + "\", \"callees\": ["; bool f = true; for (auto& c : kv.second) { a += (f ? "\"" : ", \"") + c + "\""; f = false; } cs.push_back(a + "]}"); }
       std::vector<std::string> lm; for (auto& m : L.loopMacros) lm.push_back("\"" + m + "\"");
-      std::string j = "{\n \"functions\": " + joinJson(L.fnJson) + ",\n \"no_body\": " + joinJson(L.noBody) + ",\n \"virtual_stubs\": " + joinJson(vs) + ",\n \"std_stubs\": " + joinJson(L.stdJson)
+      std::vector<std::string> cls; for (auto* D : L.constructed) cls.push_back("{\"id\": " + std::to_string(L.clsIds[D]) + ", \"class\": \"" + Lower::jsonEsc(D->getQualifiedNameAsString()) + "\", \"struct\": \"" + L.rec(D) + "\"}");
+      std::string j = "{\n \"classes\": " + joinJson(cls) + ",\n \"dispatch\": " + joinJson(L.dispatchJson) + ",\n \"functions\": " + joinJson(L.fnJson) + ",\n \"no_body\": " + joinJson(L.noBody) + ",\n \"virtual_stubs\": " + joinJson(vs) + ",\n \"std_stubs\": " + joinJson(L.stdJson)
         + ",\n \"exceptions\": " + joinJson(ex) + ",\n \"globals\": " + joinJson(L.globalJson) + ",\n \"loops\": " + joinJson(lm) + ",\n \"calls\": " + joinJson(cs);
       if (Catalogue) j += ",\n \"catalogue\": " + catalogueJson(C, L);
       j += "\n}\n";
